@@ -49,8 +49,8 @@ type NamedExpr struct {
 
 // FuncLits are the literals written inline in one function body of a
 // contract package, in source order: integer and character literals
-// (IntLits, with repetitions) and string literals without a space, i.e. not
-// messages (StrLits).  They let a tie reach constants the source never names.
+// (IntLits, with repetitions) and string literals that are not messages
+// (no space, or nothing but spaces: StrLits).  They let a tie reach constants the source never names.
 type FuncLits struct {
 	Pkg, Func string
 	IntLits   []*big.Int
@@ -651,7 +651,8 @@ func collect(res *Params, pkgs []*packages.Package, fset *token.FileSet, rel fun
 										z, _ := new(big.Int).SetString(v.ExactString(), 10)
 										fl.IntLits = append(fl.IntLits, z)
 									case bl.Kind == token.STRING && v.Kind() == constant.String:
-										if sv := constant.StringVal(v); !strings.Contains(sv, " ") {
+										// messages (words separated by spaces) are skipped; a bare separator " " is kept
+										if sv := constant.StringVal(v); !strings.Contains(sv, " ") || strings.TrimSpace(sv) == "" {
 											fl.StrLits = append(fl.StrLits, sv)
 										}
 									}
